@@ -58,7 +58,7 @@ def txtar_parse(data):
     """golang.org/x/tools/txtar Parse for archives whose lines all end in \\n."""
     comment, files, cur = [], [], None
     for line in data.splitlines(keepends=True):
-        m = re.match(rb"^-- (.*) --\n$", line)
+        m = re.match(rb"^-- (.*) --\n?$", line)
         name = m.group(1).strip() if m else b""
         if name:
             cur = [name, []]
@@ -89,8 +89,6 @@ def oracle(name, data):
     if data in BAD_BY_CONSTRUCTION:
         return None, "bad"
     if name.endswith(".txtar"):
-        if data and not data.endswith(b"\n"):
-            raise HarnessError("txtar test inputs must end in a newline")
         comment, files = txtar_parse(data)
         out = []
         for n, d in files:
@@ -922,6 +920,8 @@ def check_family(chk, inputs, orc, table):
         "bad2": ("a.evy", BAD2), "empty": ("a.evy", b""), "nonl": ("a.evy", fm.rstrip(b"\n")),
         "unfmt2": ("a.evy", UNFMT2), "txtar": ("a.txtar", TXTAR), "txtarfmtd": inputs["txtarfmtd"],
         "txtarbad": ("a.txtar", TXTARBAD), "fmttrail": ("a.evy", fm + b"\n"), "txtargrow": ("g.txtar", TXTARGROW),
+        # an archive whose last member lacks the final newline: evy fmt -w adds it, so the archive is not in formatted form
+        "txtarnonl": ("n.txtar", b"-- a.evy --\nx := 1\nprint x"), "txtarnonl2": ("n.txtar", b"comment\n-- a.evy --\nprint 1\n-- t.txt --\nlast line"),
         "crlf": ("a.evy", CRLF), "crlfunfmt": ("a.evy", CRLFUNFMT), "fmtcrlf": ("a.evy", fm.replace(b"\n", b"\r\n")),
         "fmtbom": ("a.evy", b"\xef\xbb\xbf" + fm), "fmttrailblank": ("a.evy", fm.replace(b"\n", b" \n", 1)),
     }
